@@ -13,11 +13,18 @@ pub(crate) mod verif_common {
         pub len: usize,
         pub writes: usize,
         pub flushes: usize,
+        /// fault schedule: at most `chunk` bytes accepted per `write` call (usize::MAX = everything)
+        pub chunk: usize,
+        /// fault schedule: the `write` call with this index returns Err(Interrupted) once
+        pub intr_at: usize,
+        /// fault schedule: every `write` call with index >= err_at returns Err(Other)
+        pub err_at: usize,
+        pub calls: usize,
     }
 
     impl<const N: usize> Sink<N> {
         pub fn new() -> Self {
-            Self { buf: [0u8; N], len: 0, writes: 0, flushes: 0 }
+            Self { buf: [0u8; N], len: 0, writes: 0, flushes: 0, chunk: usize::MAX, intr_at: usize::MAX, err_at: usize::MAX, calls: 0 }
         }
         pub fn bytes(&self) -> &[u8] {
             &self.buf[..self.len]
@@ -26,18 +33,41 @@ pub(crate) mod verif_common {
 
     impl<const N: usize> Write for Sink<N> {
         fn write(&mut self, b: &[u8]) -> Result<usize> {
-            assert!(self.len + b.len() <= N, "verif: Sink capacity exceeded (harness sizing)");
-            self.buf[self.len..self.len + b.len()].copy_from_slice(b);
-            self.len += b.len();
+            let call = self.calls;
+            self.calls += 1;
+            if call == self.intr_at {
+                return Err(Error::Interrupted);
+            }
+            if call >= self.err_at {
+                return Err(Error::Other("verif: injected sink error"));
+            }
+            let n = core::cmp::min(b.len(), self.chunk);
+            assert!(self.len + n <= N, "verif: Sink capacity exceeded (harness sizing)");
+            self.buf[self.len..self.len + n].copy_from_slice(&b[..n]);
+            self.len += n;
             self.writes += 1;
-            Ok(b.len())
+            Ok(n)
         }
         fn flush(&mut self) -> Result<()> {
             self.flushes += 1;
             Ok(())
         }
         fn write_all(&mut self, b: &[u8]) -> Result<()> {
-            self.write(b).map(|_| ())
+            if self.chunk == usize::MAX && self.intr_at == usize::MAX {
+                // no fault schedule: single shot, no retry loop nested into the caller's loops
+                return self.write(b).map(|_| ());
+            }
+            // with a fault schedule the crate's own default write_all loop is what is being exercised
+            let mut buf = b;
+            while !buf.is_empty() {
+                match self.write(buf) {
+                    Ok(0) => return Err(Error::WriteZero("could not write any byte")),
+                    Ok(n) => buf = &buf[n..],
+                    Err(Error::Interrupted) => {}
+                    Err(e) => return Err(e),
+                }
+            }
+            Ok(())
         }
     }
 
@@ -48,39 +78,69 @@ pub(crate) mod verif_common {
         pub len: usize,
         pub pos: usize,
         pub reads: usize,
+        /// fault schedule: at most `chunk` bytes per `read` call (usize::MAX = unlimited)
+        pub chunk: usize,
+        /// fault schedule: the `read`/`read_exact` call with this index (0-based) returns Err(Interrupted) once
+        pub intr_at: usize,
+        /// fault schedule: every `read`/`read_exact` call with index >= err_at returns Err(Other)
+        pub err_at: usize,
+        pub calls: usize,
     }
 
     impl<const N: usize> Src<N> {
         pub fn new(buf: [u8; N], len: usize) -> Self {
             assert!(len <= N);
-            Self { buf, len, pos: 0, reads: 0 }
+            Self { buf, len, pos: 0, reads: 0, chunk: usize::MAX, intr_at: usize::MAX, err_at: usize::MAX, calls: 0 }
         }
         pub fn any() -> Self {
             let buf: [u8; N] = kani::any();
             let len: usize = kani::any();
             kani::assume(len <= N);
-            Self { buf, len, pos: 0, reads: 0 }
+            Self { buf, len, pos: 0, reads: 0, chunk: usize::MAX, intr_at: usize::MAX, err_at: usize::MAX, calls: 0 }
         }
         pub fn full(buf: [u8; N]) -> Self {
-            Self { buf, len: N, pos: 0, reads: 0 }
+            Self { buf, len: N, pos: 0, reads: 0, chunk: usize::MAX, intr_at: usize::MAX, err_at: usize::MAX, calls: 0 }
         }
     }
 
     impl<const N: usize> Read for Src<N> {
         fn read(&mut self, b: &mut [u8]) -> Result<usize> {
-            let n = core::cmp::min(b.len(), self.len - self.pos);
-            b[..n].copy_from_slice(&self.buf[self.pos..self.pos + n]);
+            let call = self.calls;
+            self.calls += 1;
+            if call == self.intr_at {
+                return Err(Error::Interrupted);
+            }
+            if call >= self.err_at {
+                return Err(Error::Other("verif: injected source error"));
+            }
+            let n = core::cmp::min(core::cmp::min(b.len(), self.len - self.pos), self.chunk);
+            let mut i = 0;
+            while i < n {
+                b[i] = self.buf[self.pos + i];
+                i += 1;
+            }
             self.pos += n;
             self.reads += 1;
             Ok(n)
         }
         fn read_exact(&mut self, b: &mut [u8]) -> Result<()> {
+            let call = self.calls;
+            self.calls += 1;
+            if call >= self.err_at {
+                return Err(Error::Other("verif: injected source error"));
+            }
             if b.len() > self.len - self.pos {
                 self.pos = self.len;
                 return Err(Error::EOF);
             }
             let n = b.len();
-            b.copy_from_slice(&self.buf[self.pos..self.pos + n]);
+            // byte loop (<= N iterations) instead of a symbolic-length memcpy: CBMC turns the latter into a whole-array
+            // byte_update of the destination (measured: 24 GB OOM when the destination is the 64 KiB chunk buffer)
+            let mut i = 0;
+            while i < n {
+                b[i] = self.buf[self.pos + i];
+                i += 1;
+            }
             self.pos += n;
             self.reads += 1;
             Ok(())
